@@ -132,6 +132,7 @@ typedef struct {
     rng_t *rng;
     const char *file_kind;     /* "sync" "twr" "copy" "repaired" for keys */
     const char *prop_stats;    /* property charged for statistics violations (default C02) */
+    int errors_ok;             /* an error return from a read / statistics call is an acceptable outcome (C04) */
 } verify_opts_t;
 
 struct jls_rd_s;
@@ -167,6 +168,7 @@ int dump_reader(struct jls_rd_s *rd, dump_t *d, uint64_t seed);
 /* prefix semantics for files reopened after a crash: everything returned must be an unaltered,
  * in-order part of what was submitted; returns number of violations (charged to 'prop') */
 int verify_prefix(struct jls_rd_s *rd, const model_t *m, const char *prop, rng_t *r, const char *path, int64_t *lengths_out, const char *kind);
+int verify_prefix_ex(struct jls_rd_s *rd, const model_t *m, const char *prop, rng_t *r, const char *path, int64_t *lengths_out, const char *kind, int errors_ok);
 /* compares and reports differences as violations of 'prop' with key prefix */
 int dump_compare(const dump_t *a, const dump_t *b, const char *prop, const char *keyprefix, const char *what);
 /* per-signal mask (256 entries, may be NULL): skip length/samples/statistics comparison for those signals */
